@@ -4,7 +4,7 @@
    several deliveries and both links, duplicates, terminal states settled and unsettled, the
    non-terminal `received` state, out of order.  SndMode / RcvMode select the settle modes. *)
 EXTENDS Integers, Sequences, TLC, Json
-CONSTANTS Depth, RcvMode, SndMode, PeerH1, PeerH3   \* PeerH*: the handles the peer assigns to the two links
+CONSTANTS Depth, RcvMode, SndMode, PeerH1, PeerH3, Side   \* PeerH*: the handles the peer assigns to the two links
 
 Alphabet == {"Send1", "Send3", "SendSettled", "D0acc", "D1rej", "D01rel", "DAllmod", "D2acc", "D0accU", "D1relU", "D0recvU", "Await0", "Await1", "Await2"}
 VARIABLES script
@@ -15,17 +15,21 @@ Spec == Init /\ [][Next]_script
 Disp(a, b, settled, st) == [e |-> "PFrame", perf |-> "disposition", ch |-> 3, ech |-> 0,
                              f |-> [role |-> "r", first |-> [d |-> a], last |-> IF b = a THEN -1 ELSE [d |-> b], settled |-> settled, state |-> [k |-> st, cond |-> "", txn |-> <<>>]]]
 LFlow(h) == [e |-> "PFrame", perf |-> "flow", ch |-> 3, ech |-> 0, f |-> [nii |-> [seen |-> 0], iw |-> 5000, noi |-> 0, ow |-> 100, h |-> h, dc |-> 0, lc |-> 100]]
-Prefix == <<
-  [e |-> "AOpen", cfg |-> [mfs |-> 4096]], [e |-> "PHeader", kind |-> "amqp"],
-  [e |-> "PFrame", perf |-> "open", ch |-> 0, f |-> [mfs |-> 4096, chmax |-> 10]],
-  [e |-> "ABegin", s |-> "s1", cfg |-> [noi |-> 1000, iw |-> 100, ow |-> 100]],
-  [e |-> "PFrame", perf |-> "begin", ch |-> 3, f |-> [rch |-> [ref |-> "s1"], noi |-> 0, iw |-> 5000, ow |-> 100]],
-  [e |-> "AAttachS", l |-> "L1", s |-> "s1", cfg |-> [snd |-> SndMode, rcv |-> RcvMode, idc |-> 0]],
-  [e |-> "PFrame", perf |-> "attach", ch |-> 3, f |-> [name |-> "L1", h |-> PeerH1, role |-> "r", snd |-> SndMode, rcv |-> RcvMode]],
-  LFlow(PeerH1),
-  [e |-> "AAttachS", l |-> "L3", s |-> "s1", cfg |-> [snd |-> SndMode, rcv |-> RcvMode, idc |-> 0]],
-  [e |-> "PFrame", perf |-> "attach", ch |-> 3, f |-> [name |-> "L3", h |-> PeerH3, role |-> "r", snd |-> SndMode, rcv |-> RcvMode]],
-  LFlow(PeerH3) >>
+Att(l) == IF Side = "client" THEN [e |-> "AAttachS", l |-> l, s |-> "s1", cfg |-> [snd |-> SndMode, rcv |-> RcvMode, idc |-> 0]] ELSE [e |-> "AAcceptLink", l |-> l, s |-> "s1", cfg |-> [idc |-> 0]]
+Prefix ==
+  (IF Side = "client"
+   THEN << [e |-> "AOpen", cfg |-> [mfs |-> 4096]], [e |-> "PHeader", kind |-> "amqp"], [e |-> "PFrame", perf |-> "open", ch |-> 0, f |-> [mfs |-> 4096, chmax |-> 10]],
+           [e |-> "ABegin", s |-> "s1", cfg |-> [noi |-> 1000, iw |-> 100, ow |-> 100]],
+           [e |-> "PFrame", perf |-> "begin", ch |-> 3, f |-> [rch |-> [ref |-> "s1"], noi |-> 0, iw |-> 5000, ow |-> 100]] >>
+   ELSE << [e |-> "AAccept", cfg |-> [mfs |-> 4096]], [e |-> "PHeader", kind |-> "amqp"], [e |-> "PFrame", perf |-> "open", ch |-> 0, f |-> [mfs |-> 4096, chmax |-> 10]],
+           [e |-> "AAcceptSession", s |-> "s1", cfg |-> [noi |-> 1000, iw |-> 100, ow |-> 100]],
+           [e |-> "PFrame", perf |-> "begin", ch |-> 3, f |-> [rch |-> -1, noi |-> 0, iw |-> 5000, ow |-> 100]] >>)
+  \o << Att("L1"),
+        [e |-> "PFrame", perf |-> "attach", ch |-> 3, f |-> [name |-> "L1", h |-> PeerH1, role |-> "r", snd |-> SndMode, rcv |-> RcvMode]],
+        LFlow(PeerH1),
+        Att("L3"),
+        [e |-> "PFrame", perf |-> "attach", ch |-> 3, f |-> [name |-> "L3", h |-> PeerH3, role |-> "r", snd |-> SndMode, rcv |-> RcvMode]],
+        LFlow(PeerH3) >>
 RECURSIVE Body(_, _, _)
 Body(sc, i, ns) ==
   IF i > Len(sc) THEN <<>> ELSE
@@ -46,5 +50,5 @@ Body(sc, i, ns) ==
     [] e = "Await2" -> <<[e |-> "AAwaitOutcome", nth |-> 2]>> \o Body(sc, i + 1, ns)
 Suffix == << [e |-> "AAwaitOutcome", nth |-> 0], [e |-> "AAwaitOutcome", nth |-> 1], [e |-> "AAwaitOutcome", nth |-> 2], Disp(0, 3, TRUE, "accepted") >>
 Done == Len(script) = Depth
-Emit == Done => PrintT(<<"SCRIPT", ToJson([side |-> "client", id |-> <<RcvMode, SndMode, PeerH1, PeerH3>> \o script, ev |-> Prefix \o Body(script, 1, 0) \o Suffix])>>)
+Emit == Done => PrintT(<<"SCRIPT", ToJson([side |-> Side, id |-> <<Side, RcvMode, SndMode, PeerH1, PeerH3>> \o script, ev |-> Prefix \o Body(script, 1, 0) \o Suffix])>>)
 =============================================================================
